@@ -1289,7 +1289,7 @@ fn main() {
   cx.rep.count("distinct_exact", cx.rep.get("exhaustive_cases"));
 
   // ---- B. random identities, each as a group of variants (thumbprint invariance + reference)
-  let n_groups = sc(if thorough { 2_000_000 } else { 48_000 }) / args.nshards.max(1);
+  let n_groups = sc(if thorough { 8_000_000 } else { 48_000 }) / args.nshards.max(1);
   for _ in 0..n_groups.max(1) {
     let base = random_spec(&mut rng);
     cx.identity_group(&base, 3, &mut rng);
@@ -1324,7 +1324,7 @@ fn main() {
   cx.rep.note("odd_shapes", json!(shapes.len()));
 
   // ---- D. setter histories
-  let n_hist = sc(if thorough { 800_000 } else { 16_000 }) / args.nshards.max(1);
+  let n_hist = sc(if thorough { 3_200_000 } else { 16_000 }) / args.nshards.max(1);
   for _ in 0..n_hist.max(1) {
     let steps = 2 + rng.usize(7);
     cx.setter_history(&mut rng, steps);
